@@ -173,6 +173,8 @@ def classify(expr: str) -> list:
     import re
     if '[module revision' in expr:
         return ['module-revision']
+    if '[library revision' in expr:
+        return ['library-revision']
     if '[module ' in expr:
         return ['cross-module']
     expr = expr.split('  [')[0]
@@ -343,6 +345,40 @@ def cross_module_cases():
                 except Exception as ex:  # noqa
                     got = ('raw', type(ex).__name__)
                 out.append((f'{e}  [module revision {k} (B={b}, C={c}) loaded after revisions {done} of the same module path, same evaluator]', py, got))
+            done.append(k)
+    # a chain target -> intermediate module (not a target itself) -> library module; the library module is re-submitted
+    # (edited, unloaded) while the session and its evaluator live on: the target's members fold the library's *current* values
+    import types
+    lib_revs = [(3, 40), (40, 3), (117, 5)]
+    chain_exprs = ['Base.A.value + 1', 'Base.A.value * 2 + Base.B.value', 'Base.B.value - Base.A.value', 'Base.A.value | 0x100']
+    mid_src = 'from cclib import Base\n\nMID: int = 1\n'
+    main_src = 'from enum import Enum\nfrom ccmid import Base\n\nclass F(Enum):\n' + ''.join(f'\tX{i} = {e}\n' for i, e in enumerate(chain_exprs))
+    for order in ([0, 1], [1, 0, 2], [2, 0]):
+        s = Session({'cclib': 'from enum import Enum\n', 'ccmid': mid_src, 'ccmain': main_src}, targets=['ccmain'])
+        ev = s.get(Evaluator)
+        done = []
+        for k in order:
+            a, b = lib_revs[k]
+            try:
+                # (what the interactive mode does with a submitted module: replace the text, unload, load)
+                s.submit('cclib', f'from enum import Enum\n\nclass Base(Enum):\n\tA = {a}\n\tB = {b}\n')
+                mod = s.load('ccmain')
+                enum = [n for n in mod.entrypoint.statements if isinstance(n, defs.Enum)][0]
+                values = {v.symbol.domain_name: v.declare.as_a(defs.MoveAssign).value for v in enum.vars}
+            except Exception as ex:  # noqa
+                out.append((f'{chain_exprs[0]}  [library revision {k} (A={a}, B={b}) re-submitted after revisions {done}; target -> intermediate -> library]', ('ok', a + 1), ('raw', type(ex).__name__)))
+                done.append(k)
+                continue
+            ns = {'Base': types.SimpleNamespace(A=types.SimpleNamespace(value=a), B=types.SimpleNamespace(value=b)), '__builtins__': {}}
+            for i, e in enumerate(chain_exprs):
+                py = py_eval(e, ns)
+                try:
+                    got = ('ok', ev.exec(values[f'X{i}']))
+                except Errors.Error as ex:
+                    got = ('refused', type(ex).__name__)
+                except Exception as ex:  # noqa
+                    got = ('raw', type(ex).__name__)
+                out.append((f'{e}  [library revision {k} (A={a}, B={b}) re-submitted after revisions {done}; target -> intermediate -> library]', py, got))
             done.append(k)
     return out
 
